@@ -62,7 +62,7 @@ PROPS = {
         runs={"quick": [["query-C13", "--scenarios", "20000"]], "thorough": [["query-C13", "--scenarios", "300000"]]},
         trusted=QUERY_TRUST,
         statement="parse ∘ render = ast and eval ∘ ast = denote on well-typed inputs",
-        partial="proved: eval(ast e) = denote e for all well-typed (e, doc), all number arithmetics and regex engines; EXISTS/DOES NOT EXIST = presence for all paths; the lexer/parser half (parse(render e) = ast e) is tied by three-way correspondence, not yet a theorem",
+        partial="proved: eval(ast e) = denote e for all well-typed (e, doc), all number arithmetics and regex engines; EXISTS/DOES NOT EXIST = presence for all paths; the parser run on the canonical token sequence of any expression (parentheses only where precedence needs them) returns ast e and consumes every token (parser_builds_documented_tree), hence AND binds tighter than OR, chains associate to the left, end to end canonical_filter_is_denote. Not proved: the lexer (text -> tokens: whitespace, quote styles, escapes, number syntax), tied by three-way correspondence on rendered texts with random whitespace and redundant parentheses",
     ),
     "C14": dict(
         modules=["Syzgy.Props.C14"], ties=["Query"],
